@@ -243,7 +243,50 @@ def _nearest_for(node, fn):
     return None
 
 
+def r03_12(ctx):
+    """The level spread of the interactions that assemble_matrix collects must be justified by the marking modes refine()
+    admits.  `refine(marked, truncate=True)` closes the marks under the T-neighbourhood (support extension taken one level
+    up and projected by cell_parent), which bounds the levels of the TRUNCATED functions over a cell; assemble_matrix
+    assembles the HB-spline interactions (also as the first step of the THB matrix T^T A_HB T), which on such a mesh reach
+    further down than `disparity` levels.  Either refine() has no such mode, or the inter-level range and the neighbour sets
+    of assemble_matrix do not depend on the disparity."""
+    rf = ctx.prog.func('pyiga.hierarchical.HSpace.refine')
+    nb = ctx.prog.maybe_func('pyiga.hierarchical.HSpace._cell_neighborhood')
+    am = ctx.prog.func('pyiga._hdiscr.HDiscretization.assemble_matrix')
+    has_mode = 'truncate' in [a.arg for a in rf.node.args.args] and any(
+        isinstance(c, ast.Call) and any(k.arg == 'truncate' and src(k.value) == 'truncate' for k in c.keywords) for c in ast.walk(rf.node))
+    t_mode = False
+    if nb is not None:
+        for iff in [x for x in ast.walk(nb.node) if isinstance(x, ast.If) and src(x.test) == 'truncate' and x.orelse]:
+            if src(ast.Module(iff.body, [])) != src(ast.Module(iff.orelse, [])):
+                t_mode = True       # the two modes select different neighbourhoods
+    # the bound used by the assembly
+    loops = [l for l in ast.walk(am.node) if isinstance(l, ast.For) and isinstance(l.iter, ast.Call) and src(l.iter.func) == 'range'
+             and any(isinstance(c, ast.Call) and 'function_grandchildren' in src(c.func) for st in l.body
+                     if not isinstance(st, (ast.For, ast.While)) for c in ast.walk(st))]
+    if not loops:
+        ctx.undecided('R03.12', am.qual, 'inter-level loop of assemble_matrix', am.node, 'loop over the coarser levels not recognised')
+        return
+    loop = loops[0]
+    bounded = 'disparity' in src(loop.iter)
+    ncall = [c for c in ast.walk(am.node) if isinstance(c, ast.Call) and src(c.func).endswith('cell_supp_indices')]
+    n_all = bool(ncall) and any(k.arg == 'all_levels' and src(k.value) == 'True' for k in ncall[0].keywords)
+    csi = ctx.prog.func('pyiga.hierarchical.HSpace.cell_supp_indices')
+    n_bounded = 'disparity' in src(csi.node) and not n_all
+    if not (has_mode and t_mode):
+        ctx.met('R03.12', am.qual, 'for lv in ' + src(loop.iter), loop, 'refine() only establishes the H-admissibility the bound relies on')
+    elif bounded or n_bounded:
+        ctx.violated('R03.12', am.qual, 'for lv in %s%s' % (src(loop.iter), '' if bounded else ' (neighbour sets bounded by the disparity)'), loop,
+                     'refine(marked, truncate=True) is admitted and closes the marks under the T-neighbourhood only, which bounds the level spread '
+                     'of the truncated functions; assemble_matrix collects HB-spline interactions at most `disparity` levels down (also as the first '
+                     'step of the THB matrix), so on such a mesh inter-level blocks are missing: the assembled matrix differs from I^T A_fine I '
+                     '(p=2, 4x4 cells, disparity 1, three corner refinements with truncate=True: relative deviation 2.7e-2)')
+    else:
+        ctx.met('R03.12', am.qual, 'for lv in ' + src(loop.iter), loop, 'all coarser levels are searched: no admissibility assumption')
+
+
 def run(ctx):
+    r03_12(ctx)
     r03_7(ctx)
     r03_1(ctx)
     r03_2(ctx)
